@@ -71,7 +71,7 @@ def scalars():
 def prop_values(tag_like):
     sc = gen.opaque(scalars())
     lst = st.builds(lambda t, v: {"t": "list", "tuple": t, "v": v}, st.booleans(), st.lists(sc, max_size=3))
-    dct = st.builds(lambda items: {"t": "dict", "v": items}, st.lists(st.tuples(st.sampled_from(["k", "a", "b1", "x-y", "K"]), sc).map(list), max_size=3, unique_by=lambda p: p[0]))
+    dct = st.builds(lambda items: {"t": "dict", "v": items}, st.lists(st.tuples(st.sampled_from(["k", "a", "b1", "x-y", "K", "style", "class", "children"]), sc).map(list), max_size=3, unique_by=lambda p: p[0]))
     nested = st.builds(lambda t, v: {"t": "list", "tuple": t, "v": v}, st.booleans(), st.lists(st.one_of(sc, lst, dct), max_size=3))
     tagv = st.builds(lambda r: {"t": "node", "v": r}, tag_like)
     return st.one_of(sc, sc, lst, dct, nested, tagv)
@@ -105,21 +105,27 @@ def nodes():
             st.lists(ch, max_size=3),
         )
 
-    def comp(ch, tag_like):
+    def comp(ch, tag_like, max_kids=4):
         props = st.lists(st.tuples(st.sampled_from(PROP_NAMES), prop_values(tag_like)).map(list), max_size=3, unique_by=lambda p: p[0])
         return st.builds(
             lambda n, p, stl, k, hows: {"k": "jsx", "name": n, "props": p + ([["style", stl]] if stl is not None else []), "kids": k, "hows": hows},
             st.sampled_from(COMP_NAMES),
             props,
             st.one_of(st.none(), st.none(), style_values()),
-            st.lists(ch, max_size=4),
+            st.lists(ch, max_size=max_kids),
             st.lists(st.sampled_from(["ctor", "ctor", "list", "append", "extend"]), min_size=4, max_size=4),
         )
 
     def tfy(ch):
         return st.builds(lambda r: {"k": "tfy", "res": r, "raw": True}, st.one_of(ch.filter(lambda n: n["k"] in ("tag", "str", "dep")), st.sampled_from([DEPS[0], DEPS[1], {"k": "str", "s": "expanded"}])))
 
-    simple_taglike = st.one_of(tag(leaf, None), comp(leaf, st.just({"k": "jsx", "name": "Leaf", "props": [], "kids": [], "hows": ["ctor"] * 4})))
+    leaf_comp = st.just({"k": "jsx", "name": "Leaf", "props": [], "kids": [], "hows": ["ctor"] * 4})
+    tfy_tag = tfy(tag(leaf, None))
+    with_tfy = st.one_of(leaf, tfy_tag)
+    # values of tag/component-valued props: tags and components that may contain tagifiable descendants, and
+    # tagifiable objects themselves (expanding to a tag)
+    tfy_to_tag = st.builds(lambda r: {"k": "tfy", "res": r, "raw": True}, tag(leaf, None))  # as a prop value: expands to a tag
+    simple_taglike = st.one_of(tag(with_tfy, None), comp(with_tfy, leaf_comp), comp(leaf, st.one_of(tag(with_tfy, None), tfy_to_tag), max_kids=0), tfy_to_tag)
     n1 = st.one_of(leaf, tag(leaf, None), comp(leaf, simple_taglike), tfy(tag(leaf, None)))
     n2 = st.one_of(leaf, tag(n1, None), comp(n1, simple_taglike), tfy(n1))
     return comp(st.one_of(n2, n2, leaf), simple_taglike)
